@@ -73,7 +73,7 @@ fn matrix() -> Vec<Cfg> {
 pub fn run(cfg: &RunCfg) -> Ctx {
     let m = Arc::new(matrix());
     let n = m.len() as u64;
-    let reps = if cfg.thorough { 12 } else { 1 };
+    let reps = if cfg.thorough { 16 } else { 3 };
     let mut all = Ctx::new();
     let mm = m.clone();
     all.merge(par_cases(cfg, "matrix", n * reps, || (), move |_, rng, ctx, i| case(rng, ctx, mm[(i % n) as usize], i / n)));
@@ -143,6 +143,17 @@ fn case(rng: &mut Rng, ctx: &mut Ctx, c: Cfg, rep: u64) {
     ctx.count(if expect_ok { "expect.success".to_string() } else { format!("expect.fail.{}", why) }.as_str());
     let pcfg = if rep == 0 { PipeCfg::plain() } else { PipeCfg::gen(rng) };
     let seed = rng.u64();
+    // repetition 0 is the plain cell; later repetitions vary what must not matter: builder call
+    // order, eager or lazy connect, and which non-matching name is configured
+    let (server_order, client_order, lazy_connect, wrong_name) = if rep == 0 {
+        (0u64, 0u64, false, "other.test")
+    } else {
+        (rng.below(6), rng.below(8), rng.chance(1, 3), *rng.pick(&["other.test", "verif.test:443", "https://verif.test", "", "verif.test/", "verif test", "*.test", "test", "xverif.test", "verif.test.evil"]))
+    };
+    if c.domain == Domain::ConfiguredMismatch {
+        ctx.distinct("wrong_names", wrong_name);
+    }
+    ctx.distinct("builder_orders", &format!("s{}c{}l{}", server_order, client_order, lazy_connect as u8));
     let rt = paused_rt();
     let handler = Handler::new();
     let pipes: Arc<Mutex<Vec<PipeHandle>>> = Arc::new(Mutex::new(Vec::new()));
@@ -152,11 +163,26 @@ fn case(rng: &mut Rng, ctx: &mut Ctx, c: Cfg, rep: u64) {
         // ---- server
         let (raw_tx, mut raw_rx) = mpsc::unbounded_channel::<PipeEnd>();
         let server_task = if c.alpn == Alpn::H2 {
-            let mut tls = ServerTlsConfig::new().identity(Identity::from_pem(SERVER_PEM, SERVER_KEY)).ignore_client_order(c.ignore_client_order);
-            match c.auth {
-                ClientAuth::None => {}
-                ClientAuth::Required => tls = tls.client_ca_root(Certificate::from_pem(CCA1)),
-                ClientAuth::Optional => tls = tls.client_ca_root(Certificate::from_pem(CCA1)).client_auth_optional(true),
+            // builder calls in an order chosen per repetition: the resulting configuration is the same
+            let mut tls = ServerTlsConfig::new();
+            let mut steps: Vec<u8> = vec![0, 1, 2];
+            if server_order != 0 {
+                steps.rotate_left((server_order % 3) as usize);
+                if server_order >= 3 {
+                    steps.swap(0, 1);
+                }
+            }
+            for st in steps {
+                tls = match st {
+                    0 => tls.identity(Identity::from_pem(SERVER_PEM, SERVER_KEY)),
+                    1 => tls.ignore_client_order(c.ignore_client_order),
+                    _ => match c.auth {
+                        ClientAuth::None => tls,
+                        ClientAuth::Required => tls.client_ca_root(Certificate::from_pem(CCA1)),
+                        ClientAuth::Optional if server_order % 2 == 0 => tls.client_ca_root(Certificate::from_pem(CCA1)).client_auth_optional(true),
+                        ClientAuth::Optional => tls.client_auth_optional(true).client_ca_root(Certificate::from_pem(CCA1)),
+                    },
+                };
             }
             let router = Server::builder().tls_config(tls).map_err(|e| format!("server tls_config: {}", e))?.add_service(VerifServer::new(h2));
             let (tx, rx) = mpsc::unbounded_channel();
@@ -203,26 +229,41 @@ fn case(rng: &mut Rng, ctx: &mut Ctx, c: Cfg, rep: u64) {
             Domain::UriMismatch => "https://wrong.test:443",
             _ => "https://verif.test:443",
         };
-        let mut tls = ClientTlsConfig::new().assume_http2(c.assume_h2);
-        match c.roots {
-            Roots::Right => tls = tls.ca_certificate(Certificate::from_pem(CA1)),
-            Roots::Other => tls = tls.ca_certificate(Certificate::from_pem(CA2)),
-            Roots::None => {}
+        let mut tls = ClientTlsConfig::new();
+        let mut steps: Vec<u8> = vec![0, 1, 2, 3];
+        steps.rotate_left((client_order % 4) as usize);
+        if client_order >= 4 {
+            steps.swap(1, 2);
         }
-        match c.domain {
-            Domain::ConfiguredMatch => tls = tls.domain_name("verif.test"),
-            Domain::ConfiguredMismatch => tls = tls.domain_name("other.test"),
-            _ => {}
+        for st in steps {
+            tls = match st {
+                0 => tls.assume_http2(c.assume_h2),
+                1 => match c.roots {
+                    Roots::Right => tls.ca_certificate(Certificate::from_pem(CA1)),
+                    Roots::Other => tls.ca_certificate(Certificate::from_pem(CA2)),
+                    Roots::None => tls,
+                },
+                2 => match c.domain {
+                    Domain::ConfiguredMatch => tls.domain_name("verif.test"),
+                    Domain::ConfiguredMismatch => tls.domain_name(wrong_name),
+                    _ => tls,
+                },
+                _ => match c.ident {
+                    Ident::None => tls,
+                    Ident::Valid => tls.identity(Identity::from_pem(CLIENT1_PEM, CLIENT1_KEY)),
+                    Ident::OtherCa => tls.identity(Identity::from_pem(CLIENT2_PEM, CLIENT2_KEY)),
+                },
+            };
         }
-        match c.ident {
-            Ident::None => {}
-            Ident::Valid => tls = tls.identity(Identity::from_pem(CLIENT1_PEM, CLIENT1_KEY)),
-            Ident::OtherCa => tls = tls.identity(Identity::from_pem(CLIENT2_PEM, CLIENT2_KEY)),
-        }
-        let ep = Endpoint::from_static(uri).tls_config(tls).map_err(|e| format!("client tls_config: {}", e))?;
-        let out = match tokio::time::timeout(Duration::from_secs(60), ep.connect_with_connector(connector)).await {
+        let connected = match Endpoint::from_static(uri).tls_config(tls) {
+            // a configuration that is refused outright is a rejection too (nothing is ever sent)
+            Err(e) => Ok(Err(format!("client tls_config: {}", e))),
+            Ok(ep) if lazy_connect => Ok(Ok(ep.connect_with_connector_lazy(connector))),
+            Ok(ep) => tokio::time::timeout(Duration::from_secs(60), ep.connect_with_connector(connector)).await.map(|r| r.map_err(|e| format!("connect: {:?}", e))),
+        };
+        let out = match connected {
             Err(_) => return Err("connect did not resolve within 60 virtual seconds".to_string()),
-            Ok(Err(e)) => (false, format!("connect: {:?}", e)),
+            Ok(Err(e)) => (false, e),
             Ok(Ok(ch)) => {
                 let mut client = VerifClient::new(ch);
                 let mut req = tonic::Request::new(Msg { data: vec![9; 40], seq: 7, tag: "tls".into() });
